@@ -6,6 +6,8 @@ verdict is TLC's (specs/CodecLaws.tla evaluates the round-trip law on the observ
 from __future__ import annotations
 
 import copy
+import functools
+import inspect
 import math
 import os
 import pickle
@@ -85,35 +87,216 @@ KEY_POOL: Dict[int, list] = {
 }
 
 
+# ---- callables of every definition scope -----------------------------------------------------------------
+
+MODULE_LAMBDA = lambda x, k=2: x * k            # pylint: disable=unnecessary-lambda-assignment
+
+
+def to_int(v):
+  return int(v)
+
+
+def to_sorted_list(v):
+  return sorted(v)
+
+
+def as_tuple(v):
+  return tuple(v)
+
+
+def as_dict(v):
+  return dict(v)
+
+
+def identity(v):
+  return v
+
+
+class Scopes:
+  """Callables defined in a class body."""
+  body_lambda = lambda self, x: x * 3           # pylint: disable=unnecessary-lambda-assignment
+
+  def meth(self, x):
+    return x
+
+  @classmethod
+  def class_method(cls, x):
+    return (cls.__name__, x)
+
+  @staticmethod
+  def static_method(x):
+    return [x]
+
+
+def _make_nested():
+  def nested_def(x):
+    return (x, 'nested')
+  return nested_def, (lambda x: (x, 'nested lambda'))
+
+
+NESTED_DEF, NESTED_LAMBDA = _make_nested()
+CALL_ARGS = [(3,), ('ab',), ([2, 1],)]
+
+
+def call_outcomes(f, args_list=None, bind_self=False):
+  out = []
+  for args in (args_list or CALL_ARGS):
+    try:
+      out.append(repr(f(None, *args) if bind_self else f(*args)))
+    except Exception as e:  # pylint: disable=broad-except
+      out.append(type(e).__name__)
+  return out
+
+
+def callable_pool() -> list:
+  """(name, callable, picklable by reference, call with a dummy self)."""
+  return [
+      ('module_def', sample_fn, True, False),
+      ('module_lambda', MODULE_LAMBDA, False, False),
+      ('class_body_lambda', Scopes.body_lambda, False, True),
+      ('nested_def', NESTED_DEF, False, False),
+      ('nested_lambda', NESTED_LAMBDA, False, False),
+      ('builtin_len', len, True, False),
+      ('builtin_sorted', sorted, True, False),
+      ('unbound_method', Scopes.meth, True, True),
+      ('class_method', Scopes.class_method, True, False),
+      ('static_method', Scopes.static_method, True, False),
+      ('functools_partial', functools.partial(sample_fn), True, False),
+      ('class', PlainClass, True, None),
+      ('symbolic_class', A, True, None),
+      ('builtin_type', int, True, None),
+  ]
+
+
+def _callable_eq(bind_self):
+  def eq(a, b):
+    if a is b:
+      return True
+    if bind_self is None or type(a) is not type(b):
+      return False
+    return call_outcomes(a, bind_self=bind_self) == call_outcomes(b, bind_self=bind_self)
+  return eq
+
+
+# ---- value specs of every kind carrying every optional attribute ----------------------------------------------
+
+APPLY_SAMPLES = [None, True, 1, -1, 99, 0.5, 'abc', 'xyz', '7', [1, 2], [2, 1, 3, 4], (1, 'a'), (3,), {'k': 2, 's': 'x'}, {'k': 'bad'},
+                 sample_fn, ValueError, int]
+
+
+def apply_outcomes(spec) -> list:
+  """Behavioural probe: what apply() returns / raises on a fixed list of sample values."""
+  out = []
+  for x in APPLY_SAMPLES + [A(x=1), B(x=1, y=2)]:
+    try:
+      out.append(repr(spec.apply(copy.deepcopy(x) if isinstance(x, (list, dict)) else x)))
+    except Exception as e:  # pylint: disable=broad-except
+      out.append(type(e).__name__)
+  return out
+
+
+def spec_eq(a, b) -> bool:
+  return type(a) is type(b) and a == b and not (a != b) and apply_outcomes(a) == apply_outcomes(b)
+
+
+def schema_eq(a, b) -> bool:
+  if not (type(a) is type(b) and a == b):
+    return False
+  def probe(s):
+    out = []
+    for x in APPLY_SAMPLES:
+      try:
+        out.append(repr(s.apply({'f': x})))
+      except Exception as e:  # pylint: disable=broad-except
+        out.append(type(e).__name__)
+    return out
+  return probe(a) == probe(b)
+
+
+def spec_pool() -> list:
+  """Every value spec class, bare and with each optional constructor attribute set (found by introspection of the
+  constructor), plus all of them together; each also as a field of a Dict spec, as the element of a List spec and as a
+  field of a class Schema.  Entries: (name, value, equality)."""
+  pt = pg.typing
+  base = {
+      'Bool': (pt.Bool, (), dict(default=True)),
+      'Str': (pt.Str, (), dict(default='abc', regex='a.*')),
+      'Int': (pt.Int, (), dict(default=3, min_value=0, max_value=9)),
+      'Float': (pt.Float, (), dict(default=0.5, min_value=0.0, max_value=1.0)),
+      'Enum': (pt.Enum, ('a', ['a', 'b', None]), dict()),
+      'List': (pt.List, (pt.Int(),), dict(default=[1, 2], min_size=1, max_size=3, transform=to_sorted_list)),
+      'ListSize': (pt.List, (pt.Str(),), dict(size=2)),
+      'Tuple': (pt.Tuple, ([pt.Int(), pt.Str()],), dict(default=(1, 'a'), transform=as_tuple)),
+      'TupleVar': (pt.Tuple, (pt.Int(),), dict(min_size=1, max_size=3)),
+      'Dict': (pt.Dict, ([('k', pt.Int(default=1)), ('s', pt.Str().noneable())],), dict(transform=as_dict)),
+      'Object': (pt.Object, (A,), dict(default=A(x=1), transform=identity)),
+      'Callable': (pt.Callable, ([pt.Int()],), dict(default=sample_fn, returns=pt.Any(), transform=identity)),
+      'Functor': (pt.Functor, (), dict(returns=pt.Int())),
+      'Type': (pt.Type, (Exception,), dict(default=ValueError)),
+      'Union': (pt.Union, ([pt.Int(), pt.Str()],), dict(default=1)),
+      'Any': (pt.Any, (), dict(default=1, annotation=int, transform=to_int)),
+  }
+  out = []
+  for name, (cls, args, samples) in base.items():
+    params = inspect.signature(cls.__init__).parameters
+    variants = {'bare': {}}
+    for k, v in samples.items():
+      if k in params:
+        variants[k] = {k: v}
+    if 'is_noneable' in params:
+      variants['noneable'] = {'is_noneable': True}
+    if 'frozen' in params and ('default' in samples or name == 'Enum'):
+      variants['frozen'] = dict({'default': samples['default']} if 'default' in samples else {}, frozen=True)
+    every = {}
+    for k, v in variants.items():
+      if k not in ('frozen', 'size'):
+        every.update(v)
+    if len(every) > 1:
+      variants['all'] = every
+    for vn, kw in variants.items():
+      try:
+        spec = cls(*args, **kw)
+      except Exception:  # pylint: disable=broad-except
+        continue          # this combination is not constructible (e.g. min_size with size)
+      out.append((f'spec:{name}:{vn}', spec, spec_eq))
+      if vn in ('bare', 'all', 'transform', 'frozen', 'default'):
+        out.append((f'spec:{name}:{vn}:dict_field', pt.Dict([('f', spec), ('g', pt.Int(default=0))]), spec_eq))
+        out.append((f'spec:{name}:{vn}:list_element', pt.List(spec, max_size=4), spec_eq))
+        out.append((f'spec:{name}:{vn}:class_schema', pt.Schema([pt.Field('f', spec, 'a field', {'m': 1})]), schema_eq))
+  out.append(('spec:Any:lambda_transform', pt.Any(transform=MODULE_LAMBDA), spec_eq))
+  out.append(('schema:Typed', Typed.__schema__, lambda a, b: a == b))
+  return out
+
+
+UNPICKLABLE = set()     # ids of pool members that Python cannot pickle by reference (lambdas, nested functions)
+
+
 def _opaque_pool() -> list:
   """Convertible leaves: (value, equality) pairs; they serialise through their own to_json."""
   spec = pg.dna_spec(pg.Dict(a=pg.oneof([1, 2, 3]), b=pg.floatv(0.0, 1.0), c=pg.manyof(2, ['x', 'y', 'z'])))
   dna = pg.DNA([1, 0.5, [0, 2]])
   sym_eq = lambda a, b: type(a) is type(b) and pg.eq(a, b)
   plain_eq = lambda a, b: type(a) is type(b) and a == b
-  ident = lambda a, b: a is b
-  return [
-      (pg.typing.Int(min_value=0, max_value=9), plain_eq),
-      (pg.typing.List(pg.typing.Str(regex='a.*'), min_size=1, max_size=3), plain_eq),
-      (pg.typing.Enum('a', ['a', 'b', None]), plain_eq),
-      (pg.typing.Dict([('k', pg.typing.Int(default=1)), (pg.typing.StrKey('x.*'), pg.typing.Float())]), plain_eq),
-      (pg.typing.Object(A).noneable(), plain_eq),
-      (pg.typing.Union([pg.typing.Int(), pg.typing.Str()], default=1), plain_eq),
-      (pg.typing.Tuple([pg.typing.Int(), pg.typing.Bool(default=True)]), plain_eq),
-      (pg.typing.Callable([pg.typing.Int()], returns=pg.typing.Str()), plain_eq),
+  pool = [
       (spec, sym_eq),
       (dna, plain_eq),
       (pg.DNA(None), plain_eq),
-      (sample_fn, ident),
-      (PlainClass, ident),
-      (A, ident),
       (Typed(items=[1, 2], opts=dict(k=3, s='q'), t=(1, 'a')), sym_eq),
       (sample_functor(2), sym_eq),
       (Typed.partial(opts=dict(k=2)), sym_eq),
       (pg.oneof([1, B.partial(x=(A.partial(),))]), sym_eq),
       (pg.oneof([1, A(x=2)]), sym_eq),
-      (pg.typing.Any(annotation=int), plain_eq),
   ]
+  for _, f, picklable, bind_self in callable_pool():
+    pool.append((f, _callable_eq(bind_self)))
+    if not picklable:
+      UNPICKLABLE.add(id(f))
+  lam = None
+  for name, v, eqf in spec_pool():
+    pool.append((v, eqf))
+    if name == 'spec:Any:lambda_transform':
+      UNPICKLABLE.add(id(v))
+  return pool
 
 
 OPAQUE = _opaque_pool()
@@ -320,8 +503,10 @@ WAYS = {
 FIRST_CONC_ONLY = ('json_partial', 'json_str_partial', 'load')     # these ways are run on the first concretisation only
 
 
-def observe(v: dict, vi: int, c: int, way: str) -> dict:
+def observe(v: dict, vi: int, c: int, way: str) -> Optional[dict]:
   conc = Conc(c, vi)
+  if way == 'pickle' and id(conc.opaque) in UNPICKLABLE and has_atom(v, 20):
+    return None           # Python cannot pickle lambdas / nested functions by reference: not generated
   row = {'i': vi, 'v': v, 'way': way, 'conc': c, 'ok': False, 'back': {'t': 'err', 'a': 0, 'ks': [], 'xs': []},
          'eq': False, 'type': False, 'hash': False, 'tree': False, 'err': '', 'hashwhy': 'hash', 'built': False}
   try:
